@@ -159,6 +159,10 @@ def why_open(h, sc, facts, k, closer=None):
     for a in h.actions:
         if a['action'] == 'push' and a['ok'] and c and a['call'] < c['seq'] < a['seq']:
             return 'pushed-act'
+        # ... or a later chained act of a step that also got a pushed act: the pushed act is a direct child of the
+        # step, its completion reviews the step, and the step's child count does not contain the chained act
+        if a['action'] == 'push' and a['ok'] and (a['pid'], a['tid']) in chain[1:]:
+            return 'pushed-act'
     # the earliest closure of an ancestor over this (still open) task is the root cause
     first = None
     for anc in chain[1:]:
@@ -451,12 +455,19 @@ def mon_c01(h, sc, obs):
     for e in h.cbs:
         if e['chan'] == chan0 and e['what'] != 'start':
             term_cb.setdefault(e['pid'], e['seq'])
+    term_cb_any = {}
+    for e in h.cbs:
+        if e['what'] != 'start':
+            term_cb_any.setdefault(e['pid'], e['seq'])
     ade = h.actions_during_exec()
     left = [o for o in h.ops if o.get('op') == 'run']
-    for e in h.qps:
+    points = [{'seq': q['seq'], 'snap': q.get('snap')} for q in h.qps] + [{'seq': o['seq'], 'snap': o['res']} for o in h.ops if o.get('op') == 'snapshot' and isinstance(o.get('res'), dict) and 'live' in o['res']]
+    points.sort(key=lambda x: x['seq'])
+    for e in points:
         snap = e.get('snap')
-        if not snap:
+        if not snap or snap.get('inflight') not in (0, None):
             continue
+        q_seq = e['seq']
         for p in snap.get('live') or []:
             obs['c01.process-quiescent-points'] += 1
             pid = p['pid']
@@ -478,9 +489,9 @@ def mon_c01(h, sc, obs):
             if pending_timeout:
                 obs['c01.waiting-on-timeout'] += 1
                 continue
-            # a running sub-process
-            subs = [q for q in snap.get('live') or [] if (([t for t in q['tasks'] if t['tid'] == '$'] or [{}])[0].get('data') or {}).get('$parent_pid') == pid
-                    and q['state'] in OPEN]
+            # a running sub-process (from the history, not from the dump: the child may not be cached at the moment)
+            kids = [e['pid'] for e in h.cbs if e['what'] == 'start' and (e.get('inputs') or {}).get('$parent_pid') == pid and e['seq'] < q_seq]
+            subs = [k for k in kids if not (k in term_cb_any and term_cb_any[k] < q_seq)]
             if subs:
                 obs['c01.waiting-on-subprocess'] += 1
                 continue
